@@ -29,5 +29,5 @@ def obligations(tier):
                module=H, func='j1_bytes_roundtrip', timeout=900),
             Ob('E.write', 'E', 'replicat writes, the independent reader decodes everything; ranges tile; only scheme names stored', '6 configs x 8 trees x 3 chunkings x 2 concurrency = 288',
                [Rp + 'snapshot', Rp + '_encrypt_snapshot_body', Rp + 'init', Rp + 'serialize'], module=H, func='e_write', timeout=900, shards=4),
-            Ob('E.read', 'E', 'the independent writer writes (incl. pre-1.3 metadata), replicat restores bytes and mtime and lists', '6 x 8 x legacy/modern x 3 segmentations = 288',
+            Ob('E.read', 'E', 'the independent writer writes (incl. pre-1.3 metadata, raw UTF-8 JSON, a file whose times are the epoch itself), replicat restores bytes and mtime and lists every file with its recorded modification time', '6 x 8 x legacy/modern x 3 segmentations = 288',
                [Rp + 'restore', Rp + '_decrypt_snapshot_body', Rp + 'unlock', Rp + 'restore_metadata', Rp + '_metadata_ts_to_dt'], module=H, func='e_read', timeout=900, shards=4)]
